@@ -1,11 +1,11 @@
 SPECIFICATION Spec
 CONSTANTS
   User = {"u1", "u2"}
-  Limits = {99, 0, 1, 2, 3}
+  Limits = {99, 0, 1, 3}
   Lockouts = {99, 1, 3}
   DefaultLimit = 2
   DefaultLockout = 2
-  MaxClock = 7
+  MaxClock = 6
   MaxStreak = 4
   MaxReconf = 1
   Impl = "code"
